@@ -340,7 +340,7 @@ def chainField (l : Layout) (hops : List Hop) (f : Field) : Except Err Field :=
 
 def parseRoute? (s : String) : Option Route :=
   match s with
-  | "dict" => some .dict | "asdf" => some .asdf | "pickle" => some .pickle | "pickle-object" => some .pickleObject | "pickle-object-5" => some .pickleObject5
+  | "dict" => some .dict | "asdf" => some .asdf | "pickle" => some .pickle | "pickle-object" => some .pickleObject
   | "fits-tree" => some .fitsTree | "fits-image-field" => some .fitsImageField
   | "fits-image-basis" => some .fitsImageBasis | _ => none
 
